@@ -101,7 +101,7 @@ def m_from_bool(I, st, fr, args, path, gargs, t):
     return I.cast(st, 'IntToInt', args[0], to)
 
 
-@model(r'core::convert::num::<impl core::convert::TryFrom<' + INT + r'> for ' + INT + r'>::try_from')
+@model(r'core::convert::num::(?:ptr_try_from_impls::)?<impl core::convert::TryFrom<' + INT + r'> for ' + INT + r'>::try_from')
 def m_try_from_int(I, st, fr, args, path, gargs, t):
     to = re.search(r'for ' + INT + '>::try_from', path).group(1)
     x = args[0]
@@ -976,7 +976,22 @@ def m_unwrap_or(I, st, fr, args, path, gargs, t):
         return v.fields[0]
     if path.endswith('unwrap_or'):
         return args[1]
-    raise Stop('unwrap_or_default')
+    ty = gargs[0] if gargs else ''
+    if ty in INT_RANGES:
+        return K(0, ty)
+    if ty == '&str':
+        return SliceVal(K(0, 'usize'), 'str:')
+    # <T as Default>::default() of a workspace type (summaries apply, e.g. the thread's rounding mode)
+    from .db import strip_lt
+    dfn = I.db.find_impl_fn('core::default::Default', [strip_lt(ty)], 'default')
+    if dfn is None:
+        for f_ in I.db.fns.values():
+            im = f_.get('impl') or {}
+            if f_['name'] == 'default' and (im.get('trait') or '').endswith('default::Default') and (im.get('self') or '').endswith(ty.rsplit('::', 1)[-1]):
+                dfn = f_
+    if dfn is not None:
+        return I.push_closure(st, fr, FnVal({'fn': dfn['id'], 'path': dfn.get('path', dfn['id'])}), [], t['dest'], t['target'])
+    raise Stop('unwrap_or_default of %s' % ty)
 
 
 @model(r'core::option::Option::<T>::(ok_or)')
@@ -1011,7 +1026,172 @@ def m_opt_closure(I, st, fr, args, path, gargs, t):
         if v.variant == 1:
             return v
         return I.push_closure(st, fr, args[1], [], t['dest'], t['target'])
+    if name == 'map_or_else':
+        if v.variant == 0:
+            return I.push_closure(st, fr, args[1], [], t['dest'], t['target'])
+        return I.push_closure(st, fr, args[2], [v.fields[0]], t['dest'], t['target'])
+    if name in ('filter', 'is_some_and'):
+        if v.variant == 0:
+            return none() if name == 'filter' else K(0, 'bool')
+        x = v.fields[0]
+        arg = ref_to(I, st, x) if name == 'filter' else x
+        if name == 'filter':
+            return I.push_closure(st, fr, args[1], [arg], t['dest'], t['target'], then=lambda I_, st_, fr_, r: (some(x) if st_.truth(r) else none()))
+        return I.push_closure(st, fr, args[1], [arg], t['dest'], t['target'])
     raise Stop('Option::%s' % name)
+
+
+def ref_to(I, st, v):
+    """a reference to a temporary holding v"""
+    from .absint import Frame
+    key = ('tmp', len(st.pframes), id(v))
+    st.pframes[key] = Frame(None, None, {0: v})
+    return Ref(key, 0, ())
+
+
+@model(r'core::option::Option::<T>::(xor|or|and|zip)')
+def m_opt_binary(I, st, fr, args, path, gargs, t):
+    name = path.rsplit('::', 1)[1]
+    a, b = args[0], args[1]
+    if name == 'xor':
+        if a.variant == 1 and b.variant == 0:
+            return a
+        if a.variant == 0 and b.variant == 1:
+            return b
+        return none()
+    if name == 'or':
+        return a if a.variant == 1 else b
+    if name == 'and':
+        return b if a.variant == 1 else none()
+    if a.variant == 1 and b.variant == 1:
+        return some(Agg('tuple', None, (a.fields[0], b.fields[0])))
+    return none()
+
+
+@model(r'core::option::Option::<core::result::Result<T, E>>::transpose')
+def m_opt_transpose(I, st, fr, args, path, gargs, t):
+    v = args[0]
+    if v.variant == 0:
+        return Agg(RESULT, 0, (none(),))
+    r = v.fields[0]
+    if r.variant == 0:
+        return Agg(RESULT, 0, (some(r.fields[0]),))
+    return Agg(RESULT, 1, (r.fields[0],))
+
+
+@model(r'core::option::Option::<core::option::Option<T>>::flatten')
+def m_opt_flatten(I, st, fr, args, path, gargs, t):
+    v = args[0]
+    return v.fields[0] if v.variant == 1 else none()
+
+
+@model(r'core::result::Result::<T, E>::(map_or|map_or_else|or_else|ok_or|unwrap_or_default)')
+def m_result_closure2(I, st, fr, args, path, gargs, t):
+    name = path.rsplit('::', 1)[1]
+    v = args[0]
+    if name == 'map_or':
+        if v.variant == 1:
+            return args[1]
+        return I.push_closure(st, fr, args[2], [v.fields[0]], t['dest'], t['target'])
+    if name == 'map_or_else':
+        if v.variant == 1:
+            return I.push_closure(st, fr, args[1], [v.fields[0]], t['dest'], t['target'])
+        return I.push_closure(st, fr, args[2], [v.fields[0]], t['dest'], t['target'])
+    if name == 'or_else':
+        if v.variant == 0:
+            return v
+        return I.push_closure(st, fr, args[1], [v.fields[0]], t['dest'], t['target'])
+    raise Stop('Result::%s' % name)
+
+
+@model(r'core::num::<impl ' + INT + r'>::abs_diff')
+def m_abs_diff(I, st, fr, args, path, gargs, t):
+    ty = re.match(r'core::num::<impl ' + INT, path).group(1)
+    uty = 'u' + ty[1:] if ty[0] == 'i' else ty
+    d = padd(args[0].p, args[1].p, -1)
+    s = st.decide(d, [NONNEG, NEG])
+    return I.mk(st, uty, d if s == 0 else pneg(d), 0, None)
+
+
+# ----------------------------------------------------------------------------- folds over finite, concretely known sequences (integer ranges, arrays)
+def _seq_items(I, st, it):
+    """the items of an iterator value whose length is concrete: an integer Range with constant bounds, or an array iterator"""
+    v = deref(I, st, it) if isinstance(it, Ref) else it
+    if isinstance(v, Agg) and v.kind.endswith('Range') and len(v.fields) == 2 and isinstance(v.fields[0], Int) and isinstance(v.fields[1], Int):
+        (a, a2), (b, b2) = st.itv(v.fields[0]), st.itv(v.fields[1])
+        if a == a2 and b == b2 and b - a <= 256:
+            return [K(i, v.fields[0].ty) for i in range(a, max(a, b))]
+    if isinstance(v, Agg) and v.kind == 'seq':
+        return list(v.fields)
+    raise Stop('iteration over %r is not a finite, concretely known sequence' % (v,))
+
+
+@model(r'core::slice::<impl \[T\]>::iter')
+def m_slice_iter(I, st, fr, args, path, gargs, t):
+    v = deref(I, st, args[0])
+    if isinstance(v, Agg) and v.kind == 'array':
+        return Agg('seq', None, tuple(ref_to(I, st, x) for x in v.fields))
+    raise Stop('iter() over %r' % (v,))
+
+
+@model(r'core::slice::<impl \[T\]>::iter_mut')
+def m_slice_iter_mut(I, st, fr, args, path, gargs, t):
+    r = args[0]
+    v = deref(I, st, r)
+    if isinstance(r, Ref) and isinstance(v, Agg) and v.kind == 'array':
+        return Agg('seq', None, tuple(Ref(r.frame, r.local, list(r.proj) + [{'cindex': i}]) for i in range(len(v.fields))))
+    raise Stop('iter_mut() over %r' % (v,))
+
+
+@model(r'core::iter::Iterator::zip|<.* as core::iter::Iterator>::zip')
+def m_iter_zip(I, st, fr, args, path, gargs, t):
+    a, b = _seq_items(I, st, args[0]), _seq_items(I, st, args[1])
+    return Agg('seq', None, tuple(Agg('tuple', None, (x, y)) for x, y in zip(a, b)))
+
+
+@model(r'core::iter::Iterator::rev|<.* as core::iter::Iterator>::rev')
+def m_iter_rev(I, st, fr, args, path, gargs, t):
+    return Agg('seq', None, tuple(reversed(_seq_items(I, st, args[0]))))
+
+
+def _fold_seq(I, st, fr, f, acc, items, dest, target, kind):
+    """kind 'fold': plain accumulator; 'try': the closure returns Option / Result / ControlFlow and a failure ends the fold"""
+    if not items:
+        if kind == 'fold':
+            return acc
+        return acc          # already wrapped by the caller of the last step (see below)
+    def then(I_, st_, fr_, r, rest=items[1:]):
+        if kind == 'fold':
+            return _fold_seq(I_, st_, fr_, f, r, rest, dest, target, kind)
+        if not (isinstance(r, Agg) and r.kind in (OPTION, RESULT, CONTROLFLOW)):
+            raise Stop('try_fold step returned %r' % (r,))
+        good = (r.kind == OPTION and r.variant == 1) or (r.kind == RESULT and r.variant == 0) or (r.kind == CONTROLFLOW and r.variant == 0)
+        if not good:
+            return r
+        if not rest:
+            return r
+        return _fold_seq(I_, st_, fr_, f, r.fields[0], rest, dest, target, kind)
+    return I.push_closure(st, fr, f, [acc, items[0]], dest, target, then=then)
+
+
+@model(r'core::iter::Iterator::(fold|try_fold)|<.* as core::iter::Iterator>::(fold|try_fold)')
+def m_iter_fold(I, st, fr, args, path, gargs, t):
+    name = path.rsplit('::', 1)[1]
+    items = _seq_items(I, st, args[0])
+    init, f = args[1], args[2]
+    if name == 'fold':
+        if not items:
+            return init
+        return _fold_seq(I, st, fr, f, init, items, t['dest'], t['target'], 'fold')
+    if not items:
+        # R::from_output(init): the return type decides the wrapper; the closure's declared return type is the last generic argument
+        rty = gargs[-1] if gargs else ''
+        if 'Option' in rty:
+            return some(init)
+        if 'Result' in rty:
+            return Agg(RESULT, 0, (init,))
+        raise Stop('try_fold over an empty sequence with return type %s' % rty)
+    return _fold_seq(I, st, fr, f, init, items, t['dest'], t['target'], 'try')
 
 
 @model(r'core::result::Result::<T, E>::(ok|err|is_ok|is_err|unwrap_or)')
@@ -1218,3 +1398,11 @@ def m_range_next(I, st, fr, args, path, gargs, t):
     tf = I.frame_of(st, r.frame)
     tf.L[r.local] = I.updated(st, tf, tf.L.get(r.local), list(r.proj), Agg(v.kind, v.variant, (nxt, end)))
     return some(start)
+
+
+@model(r'core::string::String::as_bytes|alloc::string::String::as_bytes')
+def m_string_as_bytes(I, st, fr, args, path, gargs, t):
+    v = deref(I, st, args[0])
+    if isinstance(v, SliceVal):
+        return SliceVal(v.len, 'bytes')
+    return SliceVal(st.fresh('usize', 0, 2 ** 62, 'strlen'), 'bytes')
